@@ -151,6 +151,23 @@ impl<const LIFE: bool> Insertable for Probe<Channel<i64>, LIFE> {
     }
 }
 
+impl<const LIFE: bool> Insertable for Probe<calloop::stream::StreamSource<ManualStream>, LIFE> {
+    fn insert(self: Box<Self>, h: &Handle, w: &W, held: bool) -> InsertResult {
+        let s = self.id;
+        let w = w.clone();
+        let guard = CbGuard { s };
+        insert_generic(
+            *self,
+            move |item: Option<i64>, &mut (), _| {
+                let _g = &guard;
+                run_callback(&w, s, 0, json!(item.unwrap_or(-1)));
+            },
+            h,
+            held,
+        )
+    }
+}
+
 impl<const LIFE: bool> Insertable for Probe<Timer, LIFE> {
     fn insert(self: Box<Self>, h: &Handle, w: &W, held: bool) -> InsertResult {
         let s = self.id;
@@ -235,6 +252,7 @@ pub struct Src {
     pub own: Vec<Option<Rc<UnixStream>>>,
     pub fds: Vec<i32>,
     pub last_tok: Option<usize>,
+    pub stream: Option<Rc<RefCell<StreamState>>>,
 }
 
 pub struct World {
@@ -366,6 +384,7 @@ pub fn build_source(spec: &Value, faults: &Rc<Faults>, base: Instant, tick: Dura
         own: vec![],
         fds: vec![],
         last_tok: None,
+        stream: None,
     };
     macro_rules! wrap {
         ($inner:expr) => {{
@@ -405,6 +424,15 @@ pub fn build_source(spec: &Value, faults: &Rc<Faults>, base: Instant, tick: Dura
             let after = fdinfo::open_fds();
             src.fds = after.into_iter().filter(|f| !before.contains(f)).collect();
             src.pending = Some(wrap!(chan));
+        }
+        "stream" => {
+            let before = fdinfo::open_fds();
+            let st = Rc::new(RefCell::new(StreamState::default()));
+            let source = calloop::stream::StreamSource::new(ManualStream(st.clone())).unwrap();
+            let after = fdinfo::open_fds();
+            src.fds = after.into_iter().filter(|f| !before.contains(f)).collect();
+            src.stream = Some(st);
+            src.pending = Some(wrap!(source));
         }
         "timer" => {
             let t = match spec.get("dl") {
@@ -497,6 +525,7 @@ pub fn build_dup_source(spec: &Value, of: &Src, c: usize, faults: &Rc<Faults>) -
         own: vec![Some(sock.clone())],
         fds: vec![sock.as_raw_fd()],
         last_tok: None,
+        stream: None,
     }
 }
 
@@ -672,6 +701,28 @@ pub fn exec_op(w: &W, lp: Option<&mut Option<EventLoop<'static, ()>>>, op: &Valu
             };
             drop(wb);
             done!(r)
+        }
+        "push" | "end_stream" => {
+            let m = op["m"].as_i64().unwrap_or(0);
+            let st = w.borrow().srcs.get(&s.unwrap()).and_then(|x| x.stream.clone());
+            match st {
+                Some(st) => {
+                    let waker = {
+                        let mut b = st.borrow_mut();
+                        if name == "push" {
+                            b.queue.push_back(m);
+                        } else {
+                            b.ended = true;
+                        }
+                        b.waker.take()
+                    };
+                    if let Some(wk) = waker {
+                        wk.wake();
+                    }
+                    done!("ok")
+                }
+                None => done!("nohandle"),
+            }
         }
         "clone_sender" => {
             let mut wb = w.borrow_mut();
